@@ -80,6 +80,29 @@ var fedShapes = []fedShape{
 		multi:   "BetaByIDs",
 		batchID: func(i int) string { return "!bad" },
 	},
+	{ // 12 compound key, both fields set
+		rep: func(i int) map[string]any {
+			return map[string]any{"__typename": "Epsilon", "sku": "s" + sfx(i), "variant": "v" + sfx(i)}
+		},
+		want: func(i int) string {
+			return `{"__typename":"Epsilon","sku":"s` + sfx(i) + `","upc":"upc-of-s` + sfx(i) + `/v` + sfx(i) + `","variant":"v` + sfx(i) + `"}`
+		},
+		lookups: func(i int) string { return "EpsilonBySkuAndVariant:s" + sfx(i) + "/v" + sfx(i) },
+	},
+	{ // 13 compound key whose last (nullable) field is null: still identified by the compound key
+		rep: func(i int) map[string]any {
+			return map[string]any{"__typename": "Epsilon", "sku": "s" + sfx(i), "variant": nil, "upc": "u" + sfx(i)}
+		},
+		want: func(i int) string {
+			return `{"__typename":"Epsilon","sku":"s` + sfx(i) + `","upc":"upc-of-s` + sfx(i) + `/NIL","variant":null}`
+		},
+		lookups: func(i int) string { return "EpsilonBySkuAndVariant:s" + sfx(i) + "/NIL" },
+	},
+	{ // 14 second key of the compound-key type
+		rep:     func(i int) map[string]any { return map[string]any{"__typename": "Epsilon", "upc": "u" + sfx(i)} },
+		want:    func(i int) string { return `{"__typename":"Epsilon","sku":"sku-of-u` + sfx(i) + `","upc":"u` + sfx(i) + `","variant":null}` },
+		lookups: func(i int) string { return "EpsilonByUpc:u" + sfx(i) },
+	},
 	{ // 10 nested key is not an object
 		rep:  func(i int) map[string]any { return map[string]any{"__typename": "Gamma", "owner": "notamap"} },
 		want: func(i int) string { return "null" },
